@@ -28,7 +28,38 @@ func init() {
 	})
 }
 
+// modsBoundAtWrite: the per-connection encoding modifiers (packets.Mods: the receiver's Maximum Packet Size,
+// problem/response-information switches) are set by WritePacket on its own copy of the packet, from the
+// properties of the connection being written to. No other broker code stores into them, so a packet kept in the
+// session state (in-flight map, retained store) never carries the limits of an earlier connection.
+func modsBoundAtWrite(c *Ctx, rule string) {
+	n := 0
+	for _, fn := range c.ModFns {
+		for _, ins := range instrs(fn) {
+			st, ok := ins.(*ssa.Store)
+			if !ok {
+				continue
+			}
+			fa, ok := st.Addr.(*ssa.FieldAddr)
+			if !ok {
+				continue
+			}
+			pt, ok := fa.X.Type().Underlying().(*types.Pointer)
+			if !ok || !strings.HasSuffix(pt.Elem().String(), "/packets.Mods") {
+				continue
+			}
+			n++
+			owner := fname(rootFn(fn))
+			okw := owner == "(*mqtt.Client).WritePacket" || owner == "(*packets.Packet).Copy"
+			c.ob(rule, fmt.Sprintf("%s stores Mods.%s — only WritePacket binds the encoding modifiers, at write time", fname(fn), fieldName(fa.X.Type(), fa.Field)), c.pos(st.Pos()), okw,
+				"a modifier stored earlier travels with the packet into the session state; WritePacket keeps a non-zero Mods.MaxSize, so a resend after a reconnect is encoded against the old connection's limits")
+		}
+	}
+	c.floor(rule+" stores to packets.Mods", n, 3)
+}
+
 func runC23(c *Ctx) {
+	modsBoundAtWrite(c, "C23.h mods-bound-at-write")
 	codes := c.codeValuesAST()
 	// V5CodesToV3 table
 	tbl := map[string]string{}
